@@ -63,7 +63,9 @@ func c09Cells(m *sgen.Model, a *sgen.Archive, r *core.Rand) []c09Cell {
 	tripID := func() string { return m.Trips[r.Intn(len(m.Trips))].ID }
 	validService := m.Trips[0].Service
 	filler := map[string]func(k int) []string{
-		"agency.txt": func(k int) []string { return []string{fresh("agency", k), "Bad Agency", "http://bad", "UTC", "", "", "", ""} },
+		"agency.txt": func(k int) []string {
+			return []string{fresh("agency", k), "Bad Agency", "http://bad", "UTC", "", "", "", ""}
+		},
 		"routes.txt": func(k int) []string {
 			return []string{fresh("route", k), m.Agencies[0].ID, "", "", "", "3", "", "FFFFFF", "000000", "", "1", "1"}
 		},
@@ -110,6 +112,15 @@ func c09Cells(m *sgen.Model, a *sgen.Archive, r *core.Rand) []c09Cell {
 			cells = append(cells, c09Cell{t.Name, "blank:" + col, set(t.Name, col, "", f)})
 		}
 	}
+	// a row whose cells are all empty (spreadsheet padding ",,,"): rejected in every file because every file has a required
+	// column; it is a data row like any other, so it counts for the row numbers of the rows after it
+	for _, t := range a.Tables {
+		if len(sgen.RequiredColumns[t.Name]) == 0 || len(t.Header) < 2 {
+			continue
+		}
+		width := len(filler[t.Name](0))
+		cells = append(cells, c09Cell{t.Name, "all-cells-empty", func(k int) []string { return make([]string, width) }})
+	}
 	garbageNum := func() string { return core.Pick(r, []string{"abc", "12x", "1.5.2", "", "1e400x", "--1"}) }
 	garbageInt := func() string { return core.Pick(r, []string{"abc", "12x", "1.5", "99999999999999999999"}) }
 	garbageTime := func() string { return core.Pick(r, []string{"abc", "12h30", "1:2:3:4", "noon"}) }
@@ -128,7 +139,9 @@ func c09Cells(m *sgen.Model, a *sgen.Archive, r *core.Rand) []c09Cell {
 	})
 	add("transfers.txt", "unknown-ref:from_stop_id", set("transfers.txt", "from_stop_id", "ghost-stop", filler["transfers.txt"]))
 	add("transfers.txt", "unknown-ref:to_stop_id", set("transfers.txt", "to_stop_id", "ghost-stop", filler["transfers.txt"]))
-	add("calendar.txt", "bad-date:start_date", func(k int) []string { return set("calendar.txt", "start_date", garbageDate(), filler["calendar.txt"])(k) })
+	add("calendar.txt", "bad-date:start_date", func(k int) []string {
+		return set("calendar.txt", "start_date", garbageDate(), filler["calendar.txt"])(k)
+	})
 	add("calendar.txt", "bad-date:end_date", func(k int) []string { return set("calendar.txt", "end_date", garbageDate(), filler["calendar.txt"])(k) })
 	add("calendar.txt", "bad-date:end_date+existing-id", func(k int) []string {
 		row := set("calendar.txt", "end_date", garbageDate(), filler["calendar.txt"])(k)
@@ -137,10 +150,14 @@ func c09Cells(m *sgen.Model, a *sgen.Archive, r *core.Rand) []c09Cell {
 		}
 		return row
 	})
-	add("calendar_dates.txt", "bad-date:date", func(k int) []string { return set("calendar_dates.txt", "date", garbageDate(), filler["calendar_dates.txt"])(k) })
+	add("calendar_dates.txt", "bad-date:date", func(k int) []string {
+		return set("calendar_dates.txt", "date", garbageDate(), filler["calendar_dates.txt"])(k)
+	})
 	add("shapes.txt", "bad-number:shape_pt_lat", func(k int) []string { return set("shapes.txt", "shape_pt_lat", garbageNum(), filler["shapes.txt"])(k) })
 	add("shapes.txt", "bad-number:shape_pt_lon", func(k int) []string { return set("shapes.txt", "shape_pt_lon", garbageNum(), filler["shapes.txt"])(k) })
-	add("shapes.txt", "bad-number:shape_pt_sequence", func(k int) []string { return set("shapes.txt", "shape_pt_sequence", garbageInt(), filler["shapes.txt"])(k) })
+	add("shapes.txt", "bad-number:shape_pt_sequence", func(k int) []string {
+		return set("shapes.txt", "shape_pt_sequence", garbageInt(), filler["shapes.txt"])(k)
+	})
 	add("trips.txt", "unknown-ref:route_id", set("trips.txt", "route_id", "ghost-route", filler["trips.txt"]))
 	add("trips.txt", "unknown-ref:service_id", set("trips.txt", "service_id", "ghost-service", filler["trips.txt"]))
 	add("trips.txt", "unknown-ref:route_id+existing-id", func(k int) []string {
@@ -149,12 +166,20 @@ func c09Cells(m *sgen.Model, a *sgen.Archive, r *core.Rand) []c09Cell {
 		return row
 	})
 	add("frequencies.txt", "unknown-ref:trip_id", set("frequencies.txt", "trip_id", "ghost-trip", filler["frequencies.txt"]))
-	add("frequencies.txt", "bad-number:headway_secs", func(k int) []string { return set("frequencies.txt", "headway_secs", garbageInt(), filler["frequencies.txt"])(k) })
-	add("frequencies.txt", "bad-time:start_time", func(k int) []string { return set("frequencies.txt", "start_time", garbageTime(), filler["frequencies.txt"])(k) })
-	add("frequencies.txt", "bad-time:end_time", func(k int) []string { return set("frequencies.txt", "end_time", garbageTime(), filler["frequencies.txt"])(k) })
+	add("frequencies.txt", "bad-number:headway_secs", func(k int) []string {
+		return set("frequencies.txt", "headway_secs", garbageInt(), filler["frequencies.txt"])(k)
+	})
+	add("frequencies.txt", "bad-time:start_time", func(k int) []string {
+		return set("frequencies.txt", "start_time", garbageTime(), filler["frequencies.txt"])(k)
+	})
+	add("frequencies.txt", "bad-time:end_time", func(k int) []string {
+		return set("frequencies.txt", "end_time", garbageTime(), filler["frequencies.txt"])(k)
+	})
 	add("stop_times.txt", "unknown-ref:trip_id", set("stop_times.txt", "trip_id", "ghost-trip", filler["stop_times.txt"]))
 	add("stop_times.txt", "unknown-ref:stop_id", set("stop_times.txt", "stop_id", "ghost-stop", filler["stop_times.txt"]))
-	add("stop_times.txt", "bad-number:stop_sequence", func(k int) []string { return set("stop_times.txt", "stop_sequence", garbageInt(), filler["stop_times.txt"])(k) })
+	add("stop_times.txt", "bad-number:stop_sequence", func(k int) []string {
+		return set("stop_times.txt", "stop_sequence", garbageInt(), filler["stop_times.txt"])(k)
+	})
 	add("stop_times.txt", "bad-time:both", func(k int) []string {
 		row := set("stop_times.txt", "arrival_time", garbageTime(), filler["stop_times.txt"])(k)
 		row[2] = garbageTime()
@@ -163,7 +188,7 @@ func c09Cells(m *sgen.Model, a *sgen.Archive, r *core.Rand) []c09Cell {
 	return cells
 }
 
-var c09Positions = []string{"first", "middle", "last", "scattered", "ten-consecutive"}
+var c09Positions = []string{"first", "middle", "last", "scattered", "ten-consecutive", "mixed-with-other-causes"}
 
 func runC09(c *core.Ctx) {
 	r := c.R
@@ -214,6 +239,19 @@ func runC09(c *core.Ctx) {
 			case "scattered":
 				for k := 0; k < 3; k++ {
 					ins(r.Intn(len(t.Rows)+1), cell.make(k+1))
+				}
+			case "mixed-with-other-causes":
+				// this row next to rejected rows of other kinds in the same file (a warning about any of them must still
+				// carry its own row number and cells)
+				ins(r.Intn(len(t.Rows)+1), cell.make(1))
+				var same []c09Cell
+				for _, o := range cells {
+					if o.file == cell.file {
+						same = append(same, o)
+					}
+				}
+				for k := 0; k < 3; k++ {
+					ins(r.Intn(len(t.Rows)+1), core.Pick(r, same).make(k+2))
 				}
 			case "ten-consecutive":
 				at := r.Intn(n + 1)
